@@ -128,8 +128,17 @@ class ConstraintsImpl:
             kind, shape, data = "ign", [], []
         else:
             kind, shape, data = "ready", [int(x) for x in v.shape], tokens(v)
+        # an observation that raises is reported as such (never equal to a specified value)
+        try:
+            valid = bool(st.valid)
+        except Exception as e:
+            valid = "raised:" + type(e).__name__
+        try:
+            ndim = int(st.dimensionality)
+        except Exception as e:
+            ndim = "raised:" + type(e).__name__
         return {"kind": kind, "shape": shape, "data": data, "cons": cons, "strict": bool(st.strict),
-                "live": bool(st.live), "valid": bool(st.valid), "ndim": int(st.dimensionality)}
+                "live": bool(st.live), "valid": valid, "ndim": ndim}
 
     def storage(self) -> str:
         v = self.st.value
